@@ -278,6 +278,12 @@ func runWSPool(x *X) {
 					info[f.id].state = stClosed
 					mu.Unlock()
 					pool.Close(f.backend, f)
+					// Close means closed: whatever the pool still knows about that backend (nothing at
+					// all after a Shutdown, or for a backend nothing was ever parked for)
+					if !f.isClosed() {
+						x.Violate("C20", "C20/close-left-connection-open", "Close(%s, conn %d) returned and the connection is still open", f.backend, f.id)
+						x.Violate("C19", "C19/pooled-connections-left-open", "a connection that was checked out when the pool was shut down was handed to Close afterwards and is still open")
+					}
 				}
 			}
 			// holders drop what they still have
@@ -286,6 +292,10 @@ func runWSPool(x *X) {
 				info[f.id].state = stClosed
 				mu.Unlock()
 				pool.Close(f.backend, f)
+				if !f.isClosed() {
+					x.Violate("C20", "C20/close-left-connection-open", "Close(%s, conn %d) returned and the connection is still open", f.backend, f.id)
+					x.Violate("C19", "C19/pooled-connections-left-open", "a connection that was checked out when the pool was shut down was handed to Close afterwards and is still open")
+				}
 			}
 		})
 	}
